@@ -48,6 +48,8 @@ class TierHistory:
             e = r.choice(t.entries)
             v = e[r.randrange(0, len(e) - 1)]
             x = r.random()
+            if self.hostile and not self.grid and x < 0.04 and v > 1:
+                return v * (1 + r.choice([-3e-10, 3e-10]))  # nearer to an existing time than the comparison tolerance, yet another time
             if x < 0.7:
                 return v
             if x < 0.85 and t.tierType == "IntervalTier":
@@ -83,6 +85,20 @@ class TierHistory:
                     pts.append(x)
             ents = [(t, self.label()) for t in pts]
             klass = self.P
+        if self.hostile and not self.grid and r.random() < 0.06:
+            # a run of same-labelled entries far from zero whose times differ by less than the library's comparison tolerance
+            # (1e-9 relative) - pitch pulses, analysis frames - handed over in any order: they are distinct entries and the tier that
+            # comes back holds them in time order
+            t0 = r.choice([1000.0, 65536.0, 1.0e6])
+            step = t0 * r.choice([1e-10, 3e-10])
+            m = r.randrange(2, 5)
+            lab = self.label()
+            if klass is self.I:
+                ents = [(t0 + k * step, t0 + (k + 1) * step, lab) for k in range(m)]
+            else:
+                ents = [(t0 + k * step, lab) for k in range(m)]
+            ents = ents[::-1] if r.random() < 0.6 else r.sample(ents, len(ents))
+            return self._run("construct", None, klass, ("h%d" % r.randrange(4), ents, r.choice([0.0, None]), r.choice([None, 2 * t0])))
         if self.hostile and klass is self.I and len(ents) >= 2 and r.random() < 0.12:
             # arbitrary entry lists: overlaps (also by a few ulps), degenerate and reversed intervals, unsorted input.
             # A sound constructor raises or repairs; it never hands back an ill-formed tier.
